@@ -154,7 +154,9 @@ func (*c04) Impl(c Case) []string {
 				return "ok " + strconv.Itoa(w.ChunkSize())
 			case "write":
 				data, _ := untok(t[2])
-				n, err := u.w.Write([]byte(data))
+				p := []byte(data)
+				n, err := u.w.Write(p)
+				scribble(p) // io.Writer: the chunk belongs to the caller again once Write returns
 				if err != nil {
 					return "err " + errClass(err)
 				}
